@@ -5,6 +5,8 @@ package props
 import (
 	"encoding/json"
 	"fmt"
+	"github.com/trustbloc/sidetree-core-go/pkg/versions/1_0/model"
+	"github.com/trustbloc/sidetree-core-go/pkg/versions/1_0/operationparser"
 	"os"
 	"runtime"
 	"sort"
@@ -94,6 +96,19 @@ type Engine struct {
 	Suffix string
 	PC     protocol.Client
 	Params protocol.Protocol
+	// Inflated[i]: request i is stored in the form the library gives an anchored operation (canonical re-serialisation)
+	// of a submission that intake accepted just below the operation size limit, and is larger than that limit.
+	Inflated map[int]bool
+	// NoRefs: the anchoring system supplies no canonical references (the field is optional): operations from the
+	// operation store are published all the same.
+	NoRefs bool
+}
+
+// WithoutRefs is the same engine on a ledger without canonical references.
+func (e *Engine) WithoutRefs() *Engine {
+	n := *e
+	n.NoRefs = true
+	return &n
 }
 
 // NewEngine concretises an alphabet. keyType chooses the key type of every key; hash the multihash algorithm.
@@ -119,10 +134,31 @@ func NewEngine(alpha []concr.Shape, keyType concr.KeyType, hash uint) (*Engine, 
 	b.OriginPerShape = true
 	e := &Engine{Keys: keys, Alpha: alpha, Suffix: b.Suffix, Params: wire.Params(hash)}
 	e.PC = &wire.Client{Versions: []protocol.Version{wire.NewResolutionVersion(e.Params)}}
-	for _, sh := range alpha {
+	e.Inflated = map[int]bool{}
+	for i, sh := range alpha {
 		req, err := b.Request(sh)
 		if err != nil {
 			return nil, fmt.Errorf("concretise %+v: %w", sh, err)
+		}
+		if i%2 == 1 {
+			// every other well-formed update / recover: submitted as large as intake allows (numbers as 1e20, long kid);
+			// what the operation store holds is the library's re-serialisation, which exceeds the size limit
+			big, ok, ierr := b.InflatingRequest(sh, int(e.Params.MaxOperationSize), int(e.Params.MaxDeltaSize))
+			if ierr != nil {
+				return nil, ierr
+			}
+			if ok {
+				if op, perr := operationparser.New(e.Params).ParseOperation("did:sidetree", big, false); perr == nil {
+					anch, aerr := model.GetAnchoredOperation(op)
+					if aerr != nil {
+						return nil, fmt.Errorf("anchored form of %+v: %w", sh, aerr)
+					}
+					if len(anch.OperationRequest) > int(e.Params.MaxOperationSize) {
+						req = anch.OperationRequest
+						e.Inflated[i] = true
+					}
+				}
+			}
 		}
 		e.Reqs = append(e.Reqs, req)
 	}
@@ -138,7 +174,7 @@ func (e *Engine) selfCheck() error {
 	v, _ := e.PC.Current()
 	parser := v.OperationParser()
 	for i, sh := range e.Alpha {
-		if sh.Ty == "C" {
+		if sh.Ty == "C" || e.Inflated[i] {
 			continue
 		}
 		rv, err := parser.GetRevealValue(e.Reqs[i])
@@ -166,7 +202,7 @@ func (e *Engine) Anchored(a AnchOp) *operation.AnchoredOperation {
 		TransactionNumber: uint64(a.N),
 		ProtocolVersion:   0,
 	}
-	if a.Pub {
+	if a.Pub && !e.NoRefs {
 		op.CanonicalReference = Ref(a.T, a.N)
 	}
 	return op
@@ -248,6 +284,9 @@ func DocTokens(doc document.Document) []int {
 	}
 	var extra []string
 	for k := range doc {
+		if k == document.ServiceProperty && onlyInflateService(doc) {
+			continue // the padding service of an inflated request (concr.InflatingRequest) carries no content token
+		}
 		if k != document.PublicKeyProperty {
 			extra = append(extra, k)
 		}
@@ -257,6 +296,11 @@ func DocTokens(doc document.Document) []int {
 		out = append(out, -7)
 	}
 	return out
+}
+
+func onlyInflateService(doc document.Document) bool {
+	svcs := document.DidDocumentFromJSONLDObject(doc.JSONLdObject()).Services()
+	return len(svcs) == 1 && svcs[0].ID() == "inflate"
 }
 
 // Key gives a canonical string for a set of anchored operations.
